@@ -237,6 +237,38 @@ fn gen_custom_family(src: &mut Src) -> (Option<Desc>, MetricFamily, NFamily) {
             }
         }
     }
+    // label pairs are plain setter-built values: build them again with the setters called in another order (value first; or a
+    // provisional name, the value, then the real name)
+    if src.chance(70) {
+        let style = src.below(3);
+        for m in mf.mut_metric().iter_mut() {
+            let pairs: Vec<(String, String)> = m.get_label().iter().map(|l| (l.name().to_string(), l.value().to_string())).collect();
+            let rebuilt: Vec<prometheus::proto::LabelPair> = pairs
+                .into_iter()
+                .map(|(n, v)| {
+                    let mut lp = prometheus::proto::LabelPair::default();
+                    match style {
+                        0 => {
+                            lp.set_value(v);
+                            lp.set_name(n);
+                        }
+                        1 => {
+                            lp.set_name("provisional".to_string());
+                            lp.set_value(v);
+                            lp.set_name(n);
+                        }
+                        _ => {
+                            lp.set_value("provisional".to_string());
+                            lp.set_name(n);
+                            lp.set_value(v);
+                        }
+                    }
+                    lp
+                })
+                .collect();
+            m.set_label(rebuilt);
+        }
+    }
     // exercise defaults: a family whose type / help was never set
     if src.chance(30) {
         let mut bare = MetricFamily::default();
